@@ -3,7 +3,7 @@
 patch applies, the unedited test suite still passes with it, the demonstration fails with it and
 passes without it. Writes /verif/seeded/<Cxx>-<A|B>/{patch.diff,demo*,notes.md,meta.json}."""
 import json, os, re, shutil, subprocess, sys, glob
-WT = "/tmp/vseed_wt"
+WT = os.environ.get("VSEED_WT", "/tmp/vseed_wt")
 def sh(cmd, cwd=WT, timeout=1800):
     p = subprocess.run(cmd, shell=True, cwd=cwd, stdout=subprocess.PIPE, stderr=subprocess.STDOUT, text=True, timeout=timeout)
     return p.returncode, p.stdout
@@ -21,13 +21,19 @@ def main():
         subprocess.run(f"git -C {WT} checkout -q --detach $(git -C /repo rev-parse HEAD)", shell=True)
     head = subprocess.run("git -C /repo rev-parse --short HEAD", shell=True, stdout=subprocess.PIPE, text=True).stdout.strip()
     results = {}
+    # round 1 layout: /tmp/seed/Cxx/_out/{A,B}.patch.diff ; round 2 layout: /tmp/seed2/out/Cxx-{X,Y}/patch.diff
+    cands = []
     for d in sorted(glob.glob("/tmp/seed/C??/_out")):
-        prop = d.split("/")[3]
         for X in ["A", "B"]:
+            cands.append((d.split("/")[3], X, d, f"{d}/{X}.patch.diff", f"{X}."))
+    for d in sorted(glob.glob("/tmp/seed2/out/C??-?")):
+        prop, x = os.path.basename(d).split("-")
+        cands.append((prop, {"X": "C", "Y": "D"}.get(x, x), d, f"{d}/patch.diff", ""))
+    for prop, X, d, patch, pre in cands:
+        if True:
             sid = f"{prop}-{X}"
             if only and sid not in only and prop not in only:
                 continue
-            patch = f"{d}/{X}.patch.diff"
             if not os.path.exists(patch):
                 continue
             sh("git reset -q --hard && git clean -fdq -e target")
@@ -52,7 +58,7 @@ def main():
             rc, passed, failed, out = suite()
             meta["suite_with_mutant"] = {"passed": passed, "failed": failed}
             # demo
-            demos = sorted(glob.glob(f"{d}/{X}.demo*.rs") + glob.glob(f"{d}/{X}.demo.rs"))
+            demos = sorted(set(glob.glob(f"{d}/{pre}demo*.rs") + glob.glob(f"{d}/{pre}*demo*.rs")))
             demo = demos[0] if demos else None
             demo_res = None
             if demo:
@@ -92,13 +98,13 @@ def main():
                 outd = f"/verif/seeded/{sid}"
                 os.makedirs(outd, exist_ok=True)
                 open(f"{outd}/patch.diff", "w").write(mutated_diff)
-                for f in glob.glob(f"{d}/{X}.demo*"):
+                for f in glob.glob(f"{d}/{pre}*demo*"):
                     if os.path.isdir(f):
                         shutil.copytree(f, f"{outd}/{os.path.basename(f)}", dirs_exist_ok=True)
                     else:
                         shutil.copy(f, f"{outd}/{os.path.basename(f)}")
-                if os.path.exists(f"{d}/{X}.notes.md"):
-                    shutil.copy(f"{d}/{X}.notes.md", f"{outd}/notes.md")
+                if os.path.exists(f"{d}/{pre}notes.md"):
+                    shutil.copy(f"{d}/{pre}notes.md", f"{outd}/notes.md")
                 json.dump(meta, open(f"{outd}/meta.json", "w"), indent=1)
-    json.dump(results, open("/tmp/vseed_results.json", "w"), indent=1)
+    json.dump(results, open(os.environ.get("VSEED_RESULTS", "/tmp/vseed_results.json"), "w"), indent=1)
 main()
